@@ -13,6 +13,7 @@ import (
 	"runtime"
 	"runtime/debug"
 	"strings"
+	"syscall"
 
 	"github.com/nlnwa/whatwg-url/canonicalizer"
 	"github.com/nlnwa/whatwg-url/url"
@@ -32,15 +33,18 @@ type costFamily struct {
 }
 
 type costResult struct {
-	Name    string    `json:"name"`
-	Op      string    `json:"op"`
-	N       int       `json:"n"`
-	Bytes   [2]uint64 `json:"bytes"`   // TotalAlloc at n and 4n
-	Mallocs [2]uint64 `json:"mallocs"` // Mallocs at n and 4n
-	Len     [2]int    `json:"len"`
-	RatioB  float64   `json:"ratio_bytes"`
-	RatioM  float64   `json:"ratio_mallocs"`
-	Err     string    `json:"err"`
+	Name    string     `json:"name"`
+	Op      string     `json:"op"`
+	N       int        `json:"n"`
+	Bytes   [2]uint64  `json:"bytes"`   // TotalAlloc at n and 4n
+	Mallocs [2]uint64  `json:"mallocs"` // Mallocs at n and 4n
+	Len     [2]int     `json:"len"`
+	RatioB  float64    `json:"ratio_bytes"`
+	RatioM  float64    `json:"ratio_mallocs"`
+	Err     string     `json:"err"`
+	CPUN    int        `json:"cpu_n"` // CPU measure (process user+system time, min of 3 runs) at cpu_n and 4*cpu_n; 0 = not measured
+	CPUMs   [2]float64 `json:"cpu_ms"`
+	RatioC  float64    `json:"ratio_cpu"`
 }
 
 func workload(op, in, base string) (err string) {
@@ -118,11 +122,33 @@ func measure(op, in, base string) (bytes, mallocs uint64, err string) {
 	return m1.TotalAlloc - m0.TotalAlloc, m1.Mallocs - m0.Mallocs, err
 }
 
+func cpuNow() float64 {
+	var ru syscall.Rusage
+	syscall.Getrusage(syscall.RUSAGE_SELF, &ru)
+	return float64(ru.Utime.Sec)*1000 + float64(ru.Utime.Usec)/1000 + float64(ru.Stime.Sec)*1000 + float64(ru.Stime.Usec)/1000
+}
+
+// cpuOf returns the least CPU time (ms) of three runs of the workload; the GC is off and the heap is released between runs.
+func cpuOf(op, in, base string) float64 {
+	best := -1.0
+	for i := 0; i < 3; i++ {
+		runtime.GC()
+		t0 := cpuNow()
+		workload(op, in, base)
+		d := cpuNow() - t0
+		if best < 0 || d < best {
+			best = d
+		}
+	}
+	return best
+}
+
 func cmdCost(args []string) int {
 	fs := flag.NewFlagSet("cost", flag.ExitOnError)
 	in := fs.String("families", "", "json file: list of families")
 	out := fs.String("out", "cost.json", "")
 	ns := fs.String("n", "512,2048", "comma separated repetition counts")
+	cpuN := fs.Int("cpu-n", 0, "also measure CPU time at this n and 4n for families whose allocation growth is linear")
 	fs.Parse(args)
 	b, err := os.ReadFile(*in)
 	if err != nil {
@@ -157,6 +183,37 @@ func cmdCost(args []string) int {
 			}
 			r.RatioB = float64(r.Bytes[1]+1) / float64(r.Bytes[0]+1)
 			r.RatioM = float64(r.Mallocs[1]+1) / float64(r.Mallocs[0]+1)
+			res = append(res, r)
+		}
+	}
+	if *cpuN > 0 {
+		quadratic := map[string]bool{}
+		for _, r := range res {
+			if r.RatioB > 9 || r.RatioM > 9 {
+				quadratic[r.Name] = true // never run an allocation-quadratic family at a large n
+			}
+		}
+		for _, f := range fams {
+			if quadratic[f.Name] {
+				continue
+			}
+			op := f.Op
+			if op == "" {
+				op = "parse"
+			}
+			r := costResult{Name: f.Name, Op: op, N: *cpuN, CPUN: *cpuN}
+			for i, k := range []int{*cpuN, 4 * *cpuN} {
+				s := f.Prefix.ToGo() + strings.Repeat(f.Unit.ToGo(), k) + strings.Repeat(f.Unit2.ToGo(), k) + f.Suffix.ToGo()
+				base := f.Base.ToGo() + strings.Repeat(f.BaseUnit.ToGo(), k)
+				r.CPUMs[i] = cpuOf(op, s, base)
+				r.Len[i] = len(s)
+				if i == 0 && r.CPUMs[0] > 4000 {
+					r.CPUMs[1] = r.CPUMs[0] * 16 // already far too slow at n: do not run 4n
+					break
+				}
+			}
+			r.RatioC = (r.CPUMs[1] + 0.01) / (r.CPUMs[0] + 0.01)
+			r.RatioB, r.RatioM = 1, 1
 			res = append(res, r)
 		}
 	}
